@@ -1,7 +1,11 @@
 import Lace.Props.C06
+import Lace.Props.C06Fuel
 #print axioms Lace.C06.obj_length
 #print axioms Lace.C06.words_of_obj
 #print axioms Lace.C06.run_obj_eq_run_src
 #print axioms Lace.C06.loader_accepts_iff
 #print axioms Lace.C06.loader_never_panics
 #print axioms Lace.C03.load_spec
+#print axioms Lace.C06.runLoaded_fuel_mono
+#print axioms Lace.C06.runObjFile_fuel_mono
+#print axioms Lace.C06.runAssembled_fuel_mono
